@@ -425,6 +425,11 @@ def check_case(ctx, case):
         want = (R4.eval_datetime(a), R4.eval_duration(b) if b.startswith("P") else R4.eval_datetime(b))
         if not b.startswith("P") and want[1] < want[0]:
             return      # "the start MUST be before the end": not grammar-valid
+        if b.startswith("P"):
+            try:
+                want[0] + want[1]
+            except OverflowError:
+                return  # the end of the period lies outside datetime's range: no Python value to compare with
         for fn, k in ((P.vPeriod.from_ical, "grammar-decode"), (P.vDDDTypes.from_ical, "combined-decoder")):
             try:
                 got = fn(t)
